@@ -47,6 +47,7 @@ type Config struct {
 	RebcastImmediatelyAfter uint64
 	RebcastBase, RebcastMax time.Duration
 	CommitteeLookback uint64
+	CacheInstances, CacheMsgs int
 
 	// network
 	BaseLatency  time.Duration
@@ -66,8 +67,17 @@ type Config struct {
 	Restarts     bool
 	WireCodec    bool
 
+	// camps: honest members are split into two camps (used for inputs, link policies and the
+	// split-brain adversary)
+	Camp        []int
+	CampInputs  bool
+	Boundary    bool
+	LinkPolicy  [][]uint8 // [from][to]: 0 normal, 1 slow, 2 drop (slow when loss is not allowed)
+	PolicyMask  uint8     // bit per phase the policy applies to
+	PolicySlow  time.Duration
+
 	// byzantine
-	ByzStrategy int // 0 random 1 split 2 withhold 3 spam
+	ByzStrategy int // 0 random 1 split (random values) 2 random+withhold 3 camps (coherent split-brain) 4 camps+flip
 	ByzRate     int // permille chance of a reaction per honest broadcast
 	ByzTicks    int
 
@@ -292,6 +302,9 @@ func (w *World) buildTree(info *InstanceInfo, base *gpbft.TipSet) {
 	info.Base = base
 	c := w.c
 	nb := 1 + c.Intn(w.cfg.Branches)
+	if w.cfg.CampInputs && nb < 2 {
+		nb = 2
+	}
 	maxLen := w.cfg.MaxChain
 	for b := 0; b < nb; b++ {
 		var branch []*gpbft.TipSet
@@ -326,6 +339,12 @@ func (w *World) inputFor(m *Member, info *InstanceInfo) *gpbft.ECChain {
 	var b, l int
 	if w.cfg.Mode == ModeGoodCase {
 		b, l = 0, len(info.Tree[0])
+	} else if w.cfg.CampInputs && len(info.Tree) >= 2 {
+		b = w.cfg.Camp[m.Idx] % len(info.Tree)
+		l = len(info.Tree[b])
+		if w.c.Chance(100) {
+			l = w.c.Intn(l + 1)
+		}
 	} else {
 		b = w.c.Intn(len(info.Tree))
 		// bias towards full branch
